@@ -6,9 +6,10 @@ sys.path.insert(0, V)
 ALL = ["C%02d" % i for i in range(1, 21)]
 checks, na = [], []
 NA_REASONS = json.load(open(os.path.join(V, "tools", "not_applicable.json"))) if os.path.exists(os.path.join(V, "tools", "not_applicable.json")) else {}
+READY = json.load(open(os.path.join(V, "tools", "ready.json")))
 for pid in ALL:
     path = os.path.join(V, "vp", "props", pid.lower() + ".py")
-    if not os.path.exists(path) or pid in NA_REASONS:
+    if not os.path.exists(path) or pid in NA_REASONS or pid not in READY:
         na.append({"property_id": pid, "reason": NA_REASONS.get(pid, "check not built yet in this session (work in progress); no claim is made")})
         continue
     src = open(path).read()
